@@ -36,10 +36,6 @@ mut("c02_p2_skips_last", ["C02", "C05", "C14"], "tad.py",
     "        min_rewards = state_list[self.next_states[0][NEXT_STATE_IDX]].expected_rewards\n        for next_state in self.next_states[:2]:",
     "Player 2 reward step ignores a third action")
 # ---------------------------------------------------------------------------------------------------- C03
-mut("c03_p1_keeps_last_dead", ["C03", "C02"], "tad.py",
-    "        for _next_state in list(self.next_states):\n            next_state = state_list[_next_state[NEXT_STATE_IDX]]\n            if next_state.reach_probability == 0:\n                self.remove_path(_next_state)",
-    "        for _next_state in list(self.next_states):\n            next_state = state_list[_next_state[NEXT_STATE_IDX]]\n            if next_state.reach_probability == 0 and len(self.next_states) > 1:\n                self.remove_path(_next_state)",
-    "Player 1 keeps a dead successor when it is the only one left")
 # ---------------------------------------------------------------------------------------------------- C04
 mut("c04_p2_no_ties", ["C04"], "tad.py",
     "            if next_state_reach_probability < min_reach_prob:\n                min_reach_prob = next_state_reach_probability\n                worst_strategies = [action]\n            elif next_state_reach_probability == min_reach_prob:\n                worst_strategies.append(action)",
@@ -57,12 +53,9 @@ mut("c05_final_from_unrestricted", ["C05"], "tad.py",
     "        self.restricted_next_states = [\n            (action, next_state) for action, next_state in self.next_states\n            if action in best_strategies]\n        if len(self.restricted_next_states) == 1:\n            self.next_states = self.restricted_next_states",
     "Player 1 is only restricted when a single reachability-optimal action exists; with several, all original actions stay")
 # ---------------------------------------------------------------------------------------------------- C06
-mut("c06_check_last_state", ["C06"], "tad.py", "        if self.state_list[0].reach_probability == 0 and prune_states:",
-    "        if self.state_list[-1].reach_probability == 0 and prune_states:", "no-solution check looks at the last state")
 mut("c06_no_prune_flag", ["C06"], "tad.py", "        if self.state_list[0].reach_probability == 0 and prune_states:",
     "        if self.state_list[0].reach_probability == 0:", "no-solution error also with pruning off")
 # ---------------------------------------------------------------------------------------------------- C07
-mut("c07_no_sort", ["C07"], "reverse_dfs.py", "    states_reaching_final.sort()\n", "", "result not sorted")
 mut("c07_finals_twice", ["C07", "C01"], "reverse_dfs.py",
     "    states_reaching_final = [state for state in states_reaching_final if state not in final_states]",
     "    states_reaching_final = [state for state in states_reaching_final if state not in final_states[:1] + final_states[-1:]]",
@@ -80,9 +73,6 @@ mut("c08_left_wrap", ["C08"], "roberta_generator.py",
 mut("c09_off_by_one_successor", ["C09"], "tad.py",
     "            if next_state[NEXT_STATE_IDX] < 0 or next_state[NEXT_STATE_IDX] >= self.num_states:",
     "            if next_state[NEXT_STATE_IDX] < 0 or next_state[NEXT_STATE_IDX] > self.num_states:", "successor index n accepted")
-mut("c09_no_negative_final", ["C09"], "tad.py",
-    "        if max(self.final_states) >= self.num_states or min(self.final_states) < 0:",
-    "        if max(self.final_states) >= self.num_states:", "final index -1 accepted")
 mut("c09_first_transition_only", ["C09"], "tad.py",
     "        for next_state in self.next_states:\n            if not isinstance(next_state, tuple):",
     "        for next_state in self.next_states[:1]:\n            if not isinstance(next_state, tuple):", "only the first transition of a state is validated")
@@ -110,13 +100,6 @@ mut("c13_position_restrict", ["C13", "C05", "C02"], "tad.py",
     "        best_sorted = sorted(best_strategies)\n        self.next_states = [\n            (action, next_state) for action, next_state in self.next_states\n            if action in best_sorted[:max(1, len(best_sorted) - (len(self.next_states) > 2))]]",
     "with three or more actions the alphabetically last reachability-optimal action is dropped (name-order dependence)")
 # ---------------------------------------------------------------------------------------------------- C14
-mut("c14_p2_unrestricted", ["C14"], "tad.py",
-    "        for next_state in self.next_states:\n            if next_state[ACTION] in strategies:\n                next_state_exp_rewards = state_list[next_state[NEXT_STATE_IDX]].expected_rewards_min_reach",
-    "        for next_state in self.next_states:\n            if next_state[ACTION] in strategies or True:\n                next_state_exp_rewards = state_list[next_state[NEXT_STATE_IDX]].expected_rewards_min_reach",
-    "'rewards under minimal reachability' lets Player 2 use all actions")
-mut("c14_seed_one", ["C14"], "tad.py", "            state.expected_reach_min_rewards = state.reach_probability",
-    "            state.expected_reach_min_rewards = 1 if state.reach_probability > 0 else 0",
-    "'probabilities under minimal reward' seeded with 1 instead of the reachability value")
 # ---------------------------------------------------------------------------------------------------- C15
 mut("c15_seed_late", ["C15"], "roberta_generator.py",
     "    random.seed(seed)\n    for i in range(length):\n        rewards.append([])\n        loose_tiles.append([])\n        for _ in range(width):\n",
@@ -135,6 +118,13 @@ mut("c17_no_lt_when_forced", ["C17"], "roberta_generator.py",
     "                \"lt\" + prob_to_str(prob_loose_tile) + \\\n                (\"_force_down\" if force_down else \"\") + \".py\"",
     "                (\"_force_down\" if force_down else \"lt\" + prob_to_str(prob_loose_tile)) + \".py\"",
     "the loose-tile percentage is omitted when force-down is set")
+
+mut("c07_two_preds", ["C07", "C01"], "reverse_dfs.py", "        pending.extend(reversed(reversed_transitions[current_state]))",
+    "        pending.extend(reversed(reversed_transitions[current_state][:2]))", "only the first two predecessors of a state are followed")
+mut("c14_p2_first_allowed", ["C14"], "tad.py",
+    "                if next_state_exp_rewards < min_rewards:\n                    min_rewards = next_state_exp_rewards\n        min_rewards += self.reward\n        return min_rewards",
+    "                if next_state_exp_rewards < min_rewards and len(strategies) > 2:\n                    min_rewards = next_state_exp_rewards\n        min_rewards += self.reward\n        return min_rewards",
+    "'rewards under minimal reachability': with two reachability-optimal actions Player 2 takes the first, not the cheapest")
 
 REVERTS = [("edf2190", "revert_F3_reverse_dfs", ["C07", "C01"]), ("f849c62", "revert_F1_prune_paths", ["C02", "C03", "C06", "C10", "C13"]),
            ("ce29c7c", "revert_F6_count_transitions", ["C09", "C12"]), ("b382449", "revert_F4_width1", ["C08"]),
